@@ -28,6 +28,7 @@ RULE = ('Seeded programs that define up to 4 functions with 0-3 parameters and a
         'collected) and >= 1 local/global name collision. Distinct by source + host configuration.')
 RULE += ' Also: repeated parameter names; a loop that executes a definition, uses it, re-binds the name (assignment / systemGlobalSet / second definition / if-else definitions) and uses it again; a call whose argument re-binds the called name. Round 5: a comparison function whose only parameter is `...` and which keeps that array; partial applications of library functions that take `...` themselves called without arguments more than once.'
 RULE += ' Round 7: functions whose only parameter is `...` (no named parameter); every program is run a second time with the SAME options object and a fresh globals object (same outcome and log, library added to the new globals).'
+RULE += ' Round 8: the idioms `value || fallback`, `ok && value`, if(test, a, b) with parameters and locals in the operand that is only sometimes evaluated.'
 ASSUMPTIONS = ['arrayLength/arrayGet are never shadowed (the for lowering calls them by name)', 'function names have >= 2 characters']
 
 NAMES = ['xx', 'yy', 'tot', 'aa', 'bb', 'fn0', 'fn1', 'mathMax', 'stringNew']
